@@ -291,7 +291,7 @@ type run struct {
 	c    *checker
 	hist []sym
 	hoff uint64 // height offset of the alphabet (0, or 299 on the 255-prune base)
-	base bool
+	base baseKind
 	fs   *crashfs.FS
 	root string
 	st   store
@@ -299,15 +299,16 @@ type run struct {
 	// after a Flush/Close that failed on an injected fault with a batch whose commit is not observable
 	// through LoadAllEntries (a prune that removes nothing, entries of pruned heights): then both
 	// "committed" and "not committed" are kept until a later observation decides.
-	ms     []*model
-	rows   []row
-	fault  int // injected call index, -1 none
-	fmode  crashfs.FaultMode
-	broken bool // a violation made the rest of the run meaningless
+	ms            []*model
+	rows          []row
+	fault         int // injected call index, -1 none
+	fmode         crashfs.FaultMode
+	broken        bool  // a violation made the rest of the run meaningless
+	fillRemaining int64 // bytes left in the first 32 KiB block after a block-fill base
 }
 
 func (r *run) ctx() map[string]any {
-	d := map[string]any{"history": histString(r.hist), "base255": r.base}
+	d := map[string]any{"history": histString(r.hist), "base": r.base.String()}
 	if r.fault >= 0 {
 		d["fault_call"] = r.fault
 		d["fault_call_name"] = r.fs.CallName(r.fault)
@@ -479,7 +480,7 @@ func (r *run) checkLive(where string, w *row) {
 	r.ms = kept
 }
 
-const bulkEntries = 320
+var bulkEntries = envInt("C14_BULK", 640)
 
 func (r *run) doAppend(step int, height uint64) { r.doAppendPos(step, step+1, height) }
 
@@ -588,8 +589,64 @@ func (r *run) runBase() {
 	}
 }
 
+// baseKind selects the live prefix that is run (not enumerated) before the enumerated history.
+type baseKind int
+
+const (
+	baseNone     baseKind = 0
+	basePrune255 baseKind = 1 // 255 prune records since the last cleanup, three log files
+	baseFill0    baseKind = 2 // baseFill0+k: one log file filled to just below the first 32 KiB block boundary with single-entry batches of entry kind k
+)
+
+func (b baseKind) String() string {
+	switch {
+	case b == baseNone:
+		return "none"
+	case b == basePrune255:
+		return "prune255"
+	default:
+		return fmt.Sprintf("blockfill-kind%d", int(b-baseFill0))
+	}
+}
+
+const blockSize = 32 << 10 // pebble record block
+
+// logEnd returns the end offset of the last write to a log file.
+func (r *run) logEnd() int64 {
+	ops := r.fs.Ops()
+	for i := len(ops) - 1; i >= 0; i-- {
+		if ops[i].Kind == crashfs.OpWrite {
+			return ops[i].Off + int64(len(ops[i].Data))
+		}
+	}
+	return 0
+}
+
+// runFill flushes single-entry batches (entry kind k, height 1) into one log file until the next one
+// would not fit below the 32 KiB block boundary any more, so that the batches of the enumerated
+// history are written across the boundary (fragmented records, block padding).
+func (r *run) runFill(kind int) {
+	last, step := int64(0), int64(0)
+	for j := 0; !r.broken; j++ {
+		end := r.logEnd()
+		if end > last {
+			step, last = end-last, end
+		}
+		if step > 0 && end+step > blockSize {
+			break
+		}
+		pos := 100000 + 5*j
+		for (pos+1)%5 != kind {
+			pos++
+		}
+		r.doAppendPos(-1, pos, 1)
+		r.doFlush(-1)
+	}
+	r.fillRemaining = blockSize - r.logEnd()
+}
+
 // execute runs the history (after the optional base) and returns the run with its tables.
-func (c *checker) execute(hist []sym, base bool, fault int, fmode crashfs.FaultMode, epilogue bool) *run {
+func (c *checker) execute(hist []sym, base baseKind, fault int, fmode crashfs.FaultMode, epilogue bool) *run {
 	r := &run{c: c, hist: hist, base: base, fault: -1, fmode: fmode, ms: []*model{{}}}
 	r.fs = crashfs.NewFS()
 	r.root = r.fs.Mount()
@@ -607,9 +664,12 @@ func (c *checker) execute(hist []sym, base bool, fault int, fmode crashfs.FaultM
 	if r.broken {
 		return r
 	}
-	if base {
+	switch {
+	case base == basePrune255:
 		r.hoff = baseTopHeight
 		r.runBase()
+	case base >= baseFill0:
+		r.runFill(int(base - baseFill0))
 	}
 	if fault >= 0 {
 		r.fault = fault
